@@ -4,6 +4,9 @@ use std::path::Path;
 
 pub mod c01;
 pub mod c02;
+pub mod c03;
+pub mod c04;
+pub mod c05;
 pub mod c07;
 pub mod c09;
 pub mod c11;
@@ -38,6 +41,9 @@ macro_rules! registry {
 registry! {
     "C01" => c01::C01,
     "C02" => c02::C02,
+    "C03" => c03::C03,
+    "C04" => c04::C04,
+    "C05" => c05::C05,
     "C07" => c07::C07,
     "C09" => c09::C09,
     "C11" => c11::C11,
